@@ -49,7 +49,8 @@ def main():
         files = set(ov)
         for p in props:
             st, _, cons = base[p]
-            if st != "ok" or files & set(cons) or True:   # all checks: a patch may add files a check would consult
+            own = (json.load(open(os.path.join(V, kind, n, "meta.json"))).get("property") if os.path.exists(os.path.join(V, kind, n, "meta.json")) else None) or n[:3]
+            if st != "ok" or files & set(cons) or p == own or "--all" in sys.argv:   # checks that consult a patched file (+ the seed's own)
                 jobs.append(((kind, n), p, ov))
     res = {}
     with ProcessPoolExecutor(16) as ex:
@@ -61,6 +62,8 @@ def main():
             lines.append("| %s | | | | patch no longer applies |" % n); continue
         viol, anch = [], []
         for p in props:
+            if p not in res.get((kind, n), {}):
+                continue
             st, payload, _ = res[(kind, n)][p]
             if st == "ok":
                 b = set(map(tuple, base[p][1])) if base[p][0] == "ok" else set()
